@@ -551,6 +551,36 @@ def run(ck, facts):
                               "a use-site lifetime is looked up in the struct's definition environment", C.loc(f, x.get("ln")))
     if n6 < 4:
         ck.bad("R6", "floor", "only %d branded fmt_lifetime calls found (4 counted: dart and js, def and use)" % n6)
+    # a function that is handed the enclosing item's LifetimeEnv names lifetimes of THAT scope: every fmt_lifetime call in it goes through that parameter (an
+    # edge list passed to a nested struct is the enclosing scope's list for the lifetime substituted at the use site, `bEdges`, not the nested definition's `aEdges`)
+    nenv = 0
+    for f in tool.fn_list:
+        if "hir" not in f or f.get("exp") or f.get("dk") == "Closure" or "askama::" in f["path"]:
+            continue
+        ins = f.get("inputs") or []
+        ps = f["hir"].get("params") or []
+        env_ids = {ps[i].get("id") for i, t_ in enumerate(ins) if "LifetimeEnv" in t_ and i < len(ps) and isinstance(ps[i], dict)}
+        if not env_ids:
+            continue
+        defs_ = dict(flow.defs_of(f))
+        for x in C.walk(C.fn_body(f)):
+            if x.get("k") != "mcall" or x.get("m") != "fmt_lifetime":
+                continue
+            rc = C.strip(x["recv"])
+            for _ in range(4):
+                if rc.get("k") == "local" and rc.get("id") not in env_ids and defs_.get(rc.get("id"), (None,))[0] == "expr":
+                    rc = C.strip(defs_[rc["id"]][1])
+                elif rc.get("k") in ("addr", "un") and isinstance(rc.get("e"), dict):
+                    rc = C.strip(rc["e"])
+                else:
+                    break
+            nenv += 1
+            fk = C.norm_path(f["path"]).replace("diplomat_tool::", "")
+            ck.expect(rc.get("k") == "local" and rc.get("id") in env_ids, "R6", "%s/names-from-the-scope-env#%d" % (fk, sum(1 for i_ in ck.instances if i_["key"].startswith(fk + "/names-from-the-scope-env"))),
+                      "formatted with the LifetimeEnv parameter", "%s is given the enclosing item's LifetimeEnv but formats a lifetime with `%s`: the edge-list name it prints belongs to another "
+                      "scope (a nested struct's own parameter name), so the wrong objects -- or none -- are kept alive" % (f["name"], rc.get("m") or rc.get("n") or rc.get("k")), C.loc(f, x.get("ln")))
+    if nenv < 8:
+        ck.bad("R6", "names-from-the-scope-env/floor", "only %d fmt_lifetime calls in functions that receive a LifetimeEnv found (10 counted)" % nenv)
     # ... and the map itself is consumed whole wherever a backend iterates it (all definition-site lifetimes matching a use-site lifetime, not the first one)
     TRUNC_M = {"next", "first", "last", "take", "nth", "skip", "find", "min", "max", "step_by", "next_back", "pop_first", "pop_last", "take_while", "skip_while", "position", "find_map", "first_key_value", "last_key_value"}
     nmapwalk = 0
